@@ -134,13 +134,15 @@ def wf_reason(raw):
     return "other: not reachable / duplicate identifier"
 
 
-def run_props(ctx: Ctx, want, weights=None, n_quick=60, n_thorough=1500, max_ops=(6, 22), pool=0, hook=None, post=None):
+def run_props(ctx: Ctx, want, weights=None, n_quick=60, n_thorough=1500, max_ops=(6, 22), pool=0, hook=None, post=None, shape=None):
     import uuid
     sessions, cases = [], []
     n = ctx.n(n_quick, n_thorough)
     for i in range(n):
         uid_pool = [uuid.UUID(int=1000 + j) for j in range(pool)] if pool else None
         ops = wsh.gen_ops(ctx.rng, ctx.rng.randrange(*max_ops), weights=weights, pool_uids=pool)
+        if shape:
+            ops = shape(ctx.rng, ops)
         s = run_history(ctx, i, ops, uid_pool=uid_pool, extra_hook=hook)
         case = {"ops": ops, "pool": pool}
         kinds = [e.split(" ")[0] for e in s.events]
